@@ -89,6 +89,20 @@ func writeStats(s *Stats) {
 // judge classifies a verdict against the ledger.
 // returns fail=true when the verdict is a violation outside the ledger.
 func judge(p *Prop, l *Ledger, s *Stats, v *Verdict) (fail bool) {
+	if v.Sig == "" && v.Excluded == "" {
+		for _, d := range v.Tolerated {
+			if f := l.Match(p.ID, d.Sig); f != nil {
+				s.KnownHits[f.ID]++
+				if _, ok := s.KnownSigs[f.ID]; !ok {
+					s.KnownSigs[f.ID] = d.Sig
+				}
+				continue
+			}
+			// not (or no longer) listed: this is the violation of the case
+			v.Sig, v.Msg, v.NonTrivial = d.Sig, d.Msg, false
+			break
+		}
+	}
 	if v.Sig == "" || v.Excluded != "" {
 		return false
 	}
@@ -236,6 +250,10 @@ func TestReplay(t *testing.T) {
 		t.Fatalf("INFRA: case: %v", err)
 	}
 	v, hung := RunGuarded(p, c)
+	if v.Sig == "" && v.Excluded == "" && len(v.Tolerated) > 0 {
+		// a replay shows the raw deviation, whether the ledger lists it or not
+		v.Sig, v.Msg = v.Tolerated[0].Sig, v.Tolerated[0].Msg
+	}
 	sig := v.Sig
 	if sig == "" {
 		sig = "OK"
